@@ -15,13 +15,13 @@ def endcellP : List Piece := [.self "`endcelldefine\n" "`endcelldefine"]
 
 def leafP (lf : WLeaf) : List Piece :=
   cellP ++
-    (T "module" ++ W1 ++ T (fixName lf.name) ++ NL ++ T "(" ++
-      List.intercalate (T ",") (lf.ports.map (fun p => NL ++ W4 ++ T (fixName p.name))) ++ NL ++ T ")" ++ T ";" ++ NL ++ NL) ++
+    (T "module" ++ W1 ++ N (fixName lf.name) ++ NL ++ T "(" ++
+      List.intercalate (T ",") (lf.ports.map (fun p => NL ++ W4 ++ N (fixName p.name))) ++ NL ++ T ")" ++ T ";" ++ NL ++ NL) ++
     ((lf.ports.map portP).flatten ++ NL) ++
     T "endmodule" ++ NL ++ endcellP ++ NL
 
 theorem chars_leafP (lf : WLeaf) : pchars (leafP lf) = (renderLeaf lf).toList := by
-  simp only [leafP, renderLeaf, cellP, endcellP, pchars_append, pchars_cons, pchars_nil, Piece.chars, chars_T, chars_W1, chars_NL,
+  simp only [leafP, renderLeaf, cellP, endcellP, pchars_append, pchars_cons, pchars_nil, Piece.chars, chars_T, chars_N, chars_W1, chars_NL,
     pchars_intercalate, pchars_flatten, String.toList_append, String.toList_intercalate, toList_join, List.map_map]
   have h1 : "module ".toList = "module".toList ++ " ".toList := by decide
   have h2 : "\n);\n".toList = "\n".toList ++ ")".toList ++ ";".toList ++ "\n".toList := by decide
@@ -30,24 +30,24 @@ theorem chars_leafP (lf : WLeaf) : pchars (leafP lf) = (renderLeaf lf).toList :=
   have h5 : "\n`endcelldefine".toList = "\n".toList ++ "`endcelldefine".toList := by decide
   have h6 : "`endcelldefine\n".toList = "`endcelldefine".toList ++ "\n".toList := by decide
   rw [h1, h2, h3, h4, h5, h6]
-  have hm1 : lf.ports.map (pchars ∘ fun p => NL ++ W4 ++ T (fixName p.name)) =
+  have hm1 : lf.ports.map (pchars ∘ fun p => NL ++ W4 ++ N (fixName p.name)) =
       lf.ports.map (String.toList ∘ (fun s => "\n" ++ s) ∘ fun p => "    " ++ fixName p.name) := by
     apply List.map_congr_left
     intro p _
-    simp only [Function.comp, pchars_append, chars_NL, chars_W4, chars_T, String.toList_append, List.append_assoc]
+    simp only [Function.comp, pchars_append, chars_NL, chars_W4, chars_T, chars_N, String.toList_append, List.append_assoc]
   have hm2 : lf.ports.map (pchars ∘ portP) = lf.ports.map (String.toList ∘ portLine) := by
     apply List.map_congr_left; intro p _; exact chars_portP p
   rw [hm1, hm2]
   simp [List.append_assoc, List.flatMap, Function.comp_def]
 
 theorem toks_leafP (lf : WLeaf) (hd : ∀ p ∈ lf.ports, p.dir ≠ .undef ∧ p.attrs = []) : ptoks (leafP lf) = leafToks lf := by
-  simp only [leafP, leafToks, leafCore, cellP, endcellP, ptoks_append, ptoks_cons, ptoks_nil, Piece.toks, toks_T, toks_W1, toks_NL,
+  simp only [leafP, leafToks, leafCore, cellP, endcellP, ptoks_append, ptoks_cons, ptoks_nil, Piece.toks, toks_T, toks_N, toks_W1, toks_NL,
     ptoks_intercalate, ptoks_flatten, List.append_nil, List.map_map, sepNames_eq, List.nil_append]
-  have hm1 : lf.ports.map (ptoks ∘ fun p => NL ++ W4 ++ T (fixName p.name)) =
+  have hm1 : lf.ports.map (ptoks ∘ fun p => NL ++ W4 ++ N (fixName p.name)) =
       lf.ports.map ((fun x => [nameT x]) ∘ fun p => p.name) := by
     apply List.map_congr_left
     intro p _
-    simp [ptoks_append, toks_NL, toks_W4, toks_T, nameT]
+    simp [ptoks_append, toks_NL, toks_W4, toks_T, toks_N, nameT]
   have hm2 : (lf.ports.map (ptoks ∘ portP)).flatten = lf.ports.flatMap (fun p => portCore p.dir p.rng p.name) := by
     rw [List.flatMap_def]
     congr 1
@@ -75,18 +75,23 @@ theorem toks_filePbb (n : Text.WNet) (m : WModP) (leaves : List WLeaf) (hd : ∀
     (filePbb n m leaves).flatMap Piece.toks =
       ["//Generated from netlist by SpyDrNet", "//netlist name: " ++ fixName n.name] ++ bbToks m.toI leaves := by
   have h1 := toks_modP m hd
-  unfold ptoks at h1
-  have h2 : ((leaves.map leafP).flatten).flatMap Piece.toks = leaves.flatMap leafToks := by
-    have := ptoks_flatten (leaves.map leafP)
-    unfold ptoks at this
-    rw [this, List.map_map, List.flatMap_def]
-    congr 1
-    apply List.map_congr_left
-    intro lf hlf
-    exact toks_leafP lf (hl lf hlf)
-  unfold filePbb bbToks
-  rw [List.flatMap_append, h2]
-  simp only [fileP, List.cons_append, List.nil_append, List.flatMap_cons, Piece.toks, h1]
+  have h2 : ptoks ((leaves.map leafP).flatten) = leaves.flatMap leafToks := by
+    have hmap : leaves.map (ptoks ∘ leafP) = leaves.map leafToks := by
+      apply List.map_congr_left
+      intro lf hlf
+      simp only [Function.comp]
+      exact toks_leafP lf (hl lf hlf)
+    rw [ptoks_flatten, List.map_map, List.flatMap_def, hmap]
+  have h3 : (filePbb n m leaves).flatMap Piece.toks = ptoks (fileP n m) ++ ptoks ((leaves.map leafP).flatten) :=
+    ptoks_append _ _
+  have h4 : ptoks (fileP n m) =
+      ["//Generated from netlist by SpyDrNet", "//netlist name: " ++ fixName n.name] ++ tokensOf m.toI := by
+    unfold fileP
+    rw [ptoks_append, h1]
+    rfl
+  rw [h3, h2, h4]
+  unfold bbToks
+  simp
 
 /-! ### end to end with the leaves written -/
 
